@@ -362,13 +362,16 @@ def check_emitted_header(ctx, key, value):
 
 
 def check_redirect(ctx, target, as_url):
-    case = {"target": target, "as_url_object": as_url}
+    # any status that carries a Location: the classic redirects, 300 Multiple Choices, 201 Created, 305
+    status = (None, 301, 302, 303, 307, 308, 300, 201, 305)[len(target) % 9]
+    case = {"target": target, "as_url_object": as_url, "status_code": status}
 
     def factory(ns):
+        kw = {} if status is None else {"status_code": status}
         if as_url:
             from baize.datastructures import URL
-            return ns.RedirectResponse(URL(target))
-        return ns.RedirectResponse(target)
+            return ns.RedirectResponse(URL(target), **kw)
+        return ns.RedirectResponse(target, **kw)
     for iface, hdrs, exc in emit(factory):
         if exc is not None:
             if isinstance(exc, contracts.HeaderHygieneBroken):
